@@ -112,6 +112,9 @@ func (b *Bytes) Set(src Blob, destStart int64) (n int, err error) {
 
 // Grow implements Blob.
 func (b *Bytes) Grow(offset int64) error {
+	if offset < 0 {
+		return fmt.Errorf("Negative grow offset: %d", offset)
+	}
 	b.mu.Lock()
 	b.bytes = append(b.bytes, make([]byte, offset)...)
 	atomic.StoreInt64(&b.length, int64(len(b.bytes)))
@@ -121,6 +124,9 @@ func (b *Bytes) Grow(offset int64) error {
 
 // Truncate implements Blob.
 func (b *Bytes) Truncate(size int64) error {
+	if size < 0 {
+		return fmt.Errorf("Negative truncate size: %d", size)
+	}
 	if int64(b.Len()) < size {
 		return nil
 	}
